@@ -365,7 +365,11 @@ func outRec(q string, rm *api.ReplicateMsg) hx.Event {
 }
 
 func evRec(ev *api.ReplicateAPIEvent) hx.Event {
-	r := hx.Event{"type": ev.EventType.String(), "task": ev.TaskID, "msgid": ev.MsgID, "db": ev.ReplicateParam.Database,
+	typ := ev.EventType.String()
+	if ev.EventType == api.ReplicateError {
+		typ = "ReplicateError"
+	}
+	r := hx.Event{"type": typ, "task": ev.TaskID, "msgid": ev.MsgID, "db": ev.ReplicateParam.Database,
 		"cname": "", "cid": -1, "pname": "", "pid": -1, "ts": -1, "err": ""}
 	if ev.CollectionInfo != nil {
 		r["cname"], r["cid"] = ev.CollectionInfo.Schema.GetName(), int(ev.CollectionInfo.ID)
@@ -562,6 +566,25 @@ func run(p *hx.Plan) []hx.Event {
 				}
 			}
 			ev["to"] = to
+		case "run": // run goroutine g from its current yield point until its pack is done
+			g := hx.S(st, "g")
+			ev["g"] = g
+			n := 0
+			for ; n < 8; n++ {
+				pk := e.findPack(g)
+				if pk == nil {
+					break
+				}
+				if e.sched.Point(pk) == "prelock" && e.tt <= 5 {
+					time.Sleep(time.Duration(e.tt+2) * time.Millisecond)
+				}
+				e.sched.Release(pk)
+				if err := pfake.WaitQuiescent(8 * time.Second); err != nil {
+					e.bad = err.Error()
+					break
+				}
+			}
+			ev["gates"] = n
 		case "sleep":
 			time.Sleep(time.Duration(hx.I(st, "ms")) * time.Millisecond)
 		}
@@ -575,6 +598,12 @@ func run(p *hx.Plan) []hx.Event {
 			evs = append(evs, hx.Event{"op": "machinery", "what": e.bad, "out": []hx.Event{}, "evs": []hx.Event{}, "regs": []hx.Event{}})
 			break
 		}
+	}
+	if e.bad == "" { // drain: everything in flight runs to completion, unscheduled
+		e.sched.Abort()
+		ev := hx.Event{"op": "drain"}
+		e.settle(ev)
+		evs = append(evs, ev)
 	}
 	e.sched.Abort()
 	for _, c := range e.colls { // closes the barriers so their goroutines exit
